@@ -397,14 +397,16 @@ fn pick_level(rng: &mut Rng) -> u8 {
 fn rand_vec(rng: &mut Rng, dims: usize, span: i64) -> Vec<i32> { (0..dims).map(|_| rng.range(-span, span) as i32).collect() }
 
 #[derive(Clone, Copy, PartialEq)]
-enum Kind { InsertOnly, WithDelete, EntryDelete, Blind, Malformed, Tiny }
+enum Kind { InsertOnly, WithDelete, EntryDelete, Blind, Malformed, Tiny, Overflow }
 
 fn gen_hist(rng: &mut Rng, kind: Kind, max_ops: usize) -> Hist {
     let dims = 2 + rng.below(3) as usize;
     let m = *rng.pick(&[2u16, 2, 3, 4, 16]);
     let efc = *rng.pick(&[1u16, 2, 3, 4, 8, 100]);
     let span = *rng.pick(&[1i64, 2, 3, 8]);
-    let n_ops = if kind == Kind::Tiny { 3 + rng.below(5) as usize } else { 6 + rng.below((max_ops - 5) as u64) as usize };
+    let n_ops = if kind == Kind::Tiny { 3 + rng.below(5) as usize }
+                else if kind == Kind::Overflow { 12 + rng.below(50) as usize }
+                else { 6 + rng.below((max_ops - 5) as u64) as usize };
     let mut ops: Vec<Op> = vec![];
     let mut live: Vec<u64> = vec![];
     let mut dead: Vec<u64> = vec![];
@@ -414,14 +416,14 @@ fn gen_hist(rng: &mut Rng, kind: Kind, max_ops: usize) -> Hist {
     let mut last_q: Option<(Vec<i32>, usize, usize)> = None;
     while ops.len() < n_ops {
         let c = rng.below(100);
-        let want_insert = live.len() < 2 || c < 45;
+        let want_insert = live.len() < 2 || c < 45 || (kind == Kind::Overflow && c < 80);
         if want_insert {
             let row = if !dead.is_empty() && rng.chance(1, 4) { let i = rng.below(dead.len() as u64) as usize; dead.swap_remove(i) }
                       else { let r = next_row; next_row += 1 + rng.below(2); r };
             let mut v = rand_vec(rng, dims, span);
             let mut blind = kind == Kind::Blind || (kind == Kind::Malformed && rng.chance(1, 5));
             if kind == Kind::Malformed && rng.chance(1, 6) { if rng.chance(1, 2) { v.pop(); } else { v.push(1); } blind = false; }
-            let lvl = pick_level(rng);
+            let lvl = if kind == Kind::Overflow && rng.chance(1, 3) { *rng.pick(&[15u8, 15, 12, 9]) } else { pick_level(rng) };
             let good = v.len() == dims;
             ops.push(Op::Ins { row, v, lvl, blind });
             if good {
@@ -602,7 +604,8 @@ fn gen(a: &Args) {
             14 => (Kind::EntryDelete, "entry_delete"),
             15 => (Kind::Blind, "blind_insert"),
             16 | 17 => (Kind::Malformed, "malformed"),
-            _ => (Kind::Tiny, "tiny"),
+            18 => (Kind::Tiny, "tiny"),
+            _ => (Kind::Overflow, "half_page_overflow"),
         };
         // in the thorough tier a tenth of the histories are long
         let mo = if a.thorough() { if i % 10 == 0 { max_ops } else { 60 } } else { max_ops };
